@@ -34,6 +34,7 @@ type c20Phase struct {
 
 type c20Spec struct {
 	Names   []string   `json:"names"`
+	Spell   []string   `json:"spelled_as"` // how each name is written in FromCache/CleanCache calls (always the same way within a run)
 	HasInc  []bool     `json:"has_inc"`
 	Loaders []string   `json:"loaders"`
 	Shared  bool       `json:"sets_share_one_loader_object"`
@@ -96,6 +97,7 @@ func c20Gen(tp *Tapes) *c20Spec {
 	for i := 0; i < nNames; i++ {
 		name := fmt.Sprintf("n%d.tpl", i)
 		sp.Names = append(sp.Names, name)
+		sp.Spell = append(sp.Spell, []string{"", "", "./", "zz/../"}[g.Draw(4)]+name)
 		hasInc := g.Draw(3) == 1
 		sp.HasInc = append(sp.HasInc, hasInc)
 		absent0 := g.Draw(8) == 7
@@ -483,13 +485,13 @@ func (c20Checker) Run(tp *Tapes, opt RunOpt) *Outcome {
 						set := sets[op.Set]
 						switch op.Kind {
 						case "from":
-							t, err := set.FromCache(sp.Names[op.Name])
+							t, err := set.FromCache(sp.Spell[op.Name])
 							r.tpl = t
 							r.err = errStr(err)
 						case "clean":
 							var ns []string
 							for _, n := range op.Names {
-								ns = append(ns, sp.Names[n])
+								ns = append(ns, sp.Spell[n])
 							}
 							set.CleanCache(ns...)
 						case "cleanall":
@@ -759,7 +761,7 @@ func (c20Checker) Run(tp *Tapes, opt RunOpt) *Outcome {
 	out.RaceRun = RaceEnabled
 	out.mergeWorld(w)
 	ph := newHasher()
-	ph.str(fmt.Sprintf("%v", sp.Names))
+	ph.str(fmt.Sprintf("%v%v", sp.Names, sp.Spell))
 	ph.str(fmt.Sprintf("%+v", sp.Phases))
 	ph.str(fmt.Sprintf("%v%v%v", sp.Loaders, sp.HasInc, sp.Shared))
 	out.ProgHash = uint64(ph)
